@@ -100,6 +100,16 @@ func (c c03) Run(ctx *core.Ctx) error {
 		cases = append(cases, core.J(c03Case{Legacy: fi + 1}))
 	}
 	cases = append(cases, core.J(c03Case{Shared: true}))
+	// key and value lengths on both sides of the variable-length-integer boundaries 2^7 and 2^14
+	for _, kl := range []int{126, 127, 128, 129} {
+		var t []kv
+		for j, vl := range []int{126, 127, 128, 129, 16383, 16384, 16385} {
+			k := bytes.Repeat([]byte{byte('a' + j)}, kl)
+			t = append(t, kv{k, incompressible(vl, uint64(kl*100+j))})
+		}
+		cases = append(cases, core.J(c03Case{KVs: t}))
+	}
+	ctx.Ev.Bounds["varint_boundary_tables"] = "4 tables: keys of 126..129 bytes x values of 126,127,128,129,16383,16384,16385 bytes"
 	ctx.Ev.Bounds["legacy_fixture_tables"] = len(legacyTables())
 	ctx.Ev.Bounds["sequential_key_tables"] = sizes
 	ctx.Ev.Bounds["large_value_table"] = "a=600000 incompressible bytes, ab=v, b=2^20+5 incompressible bytes, c=nil; stream writer x data compression {none, snappy} and skip-list writer, loaders {slice, disk}"
